@@ -712,121 +712,7 @@ func c02Reject(c *Ctx) {
 		if f == nil {
 			continue
 		}
-		ps, _ := c.XO.Paths(f, an.PathOpts{MaxPaths: 400000, EmitCut: true, InlinePaths: c.helperInline(f)})
-		type st struct{ tested, swallowed bool }
-		sites := map[ssa.Value]*st{}
-		for _, b := range f.Blocks {
-			for _, in := range b.Instrs {
-				call, ok := in.(*ssa.Call)
-				if !ok {
-					continue
-				}
-				sig := call.Call.Signature()
-				if sig.Results().Len() == 0 || types.TypeString(sig.Results().At(sig.Results().Len()-1).Type(), nil) != "error" {
-					continue
-				}
-				if fo := an.CalleeObj(&call.Call); fo != nil && (fo.Pkg() != nil && fo.Pkg().Path() == "fmt" || fo.Pkg() != nil && fo.Pkg().Path() == "errors") {
-					continue // constructors
-				}
-				sites[call] = &st{}
-			}
-		}
-		// the tests of each site's error: If instructions comparing it with nil (identified by SSA
-		// operand, so that a helper whose body is enumerated in line is still seen as tested)
-		type errIf struct {
-			in     *ssa.If
-			nonNil int // successor index taken when the error is non-nil
-		}
-		tests := map[ssa.Value][]errIf{}
-		for _, b := range f.Blocks {
-			ifi, ok := b.Instrs[len(b.Instrs)-1].(*ssa.If)
-			if !ok {
-				continue
-			}
-			bo, ok := ifi.Cond.(*ssa.BinOp)
-			if !ok || (bo.Op != token.NEQ && bo.Op != token.EQL) {
-				continue
-			}
-			for _, pair := range [][2]ssa.Value{{bo.X, bo.Y}, {bo.Y, bo.X}} {
-				cst, isC := pair[1].(*ssa.Const)
-				if !isC || !cst.IsNil() {
-					continue
-				}
-				src := pair[0]
-				if ex, ok := src.(*ssa.Extract); ok {
-					src = ex.Tuple
-				}
-				if st := sites[src]; st != nil {
-					st.tested = true
-					nn := 0
-					if bo.Op == token.EQL {
-						nn = 1
-					}
-					tests[src] = append(tests[src], errIf{ifi, nn})
-				}
-			}
-		}
-		// an error handed straight to the caller (`return helper(...)`) is propagated, not ignored
-		for v, st := range sites {
-			call := v.(*ssa.Call)
-			if call.Referrers() == nil {
-				continue
-			}
-			for _, r := range *call.Referrers() {
-				var errVal ssa.Value
-				if ex, ok := r.(*ssa.Extract); ok && ex.Index == call.Call.Signature().Results().Len()-1 {
-					errVal = ex
-				} else if _, ok := r.(*ssa.Return); ok && call.Call.Signature().Results().Len() == 1 {
-					errVal = call
-				}
-				if errVal == nil || errVal.Referrers() == nil {
-					continue
-				}
-				for _, rr := range *errVal.Referrers() {
-					if ret, ok := rr.(*ssa.Return); ok && len(ret.Results) > 0 && ret.Results[len(ret.Results)-1] == errVal {
-						st.tested = true
-					}
-				}
-			}
-		}
-		for _, p := range ps {
-			for v, ts := range tests {
-				for _, t := range ts {
-					for i, blk := range p.Blocks {
-						if blk != t.in.Block() {
-							continue
-						}
-						// the next block of this frame on the path
-						var next *ssa.BasicBlock
-						for _, nb := range p.Blocks[i+1:] {
-							if nb.Parent() == f {
-								next = nb
-								break
-							}
-						}
-						if next == nil && p.Cut && p.CutTo.Parent() == f {
-							next = p.CutTo
-						}
-						if next != blk.Succs[t.nonNil] {
-							continue
-						}
-						if p.Cut || !(p.Ret != nil && !exprIsNil(p.Results[len(p.Results)-1]) && !exprIsZero(p.Results[len(p.Results)-1])) {
-							sites[v].swallowed = true
-						}
-					}
-				}
-			}
-		}
-		for v, s := range sites {
-			nErr++
-			call := v.(*ssa.Call)
-			name := "?"
-			if fo := an.CalleeObj(&call.Call); fo != nil {
-				name = fo.Name()
-			}
-			c.R.Check(s.tested && !s.swallowed, "R-C02-2", fmt.Sprintf("config.%s:error-of-%s", n, name), "config."+n, c.pos(call.Pos()), fmt.Sprintf("error tested=%v, non-nil error reaches a non-nil error return=%v", s.tested, !s.swallowed),
-				"every error inside the parser is tested and propagated", "a parse/validation error is ignored: an invalid value is silently replaced")
-		}
+		nErr += errorDiscipline(c, "R-C02-2", f, "config."+n, "every error inside the parser is tested and propagated", "a parse/validation error is ignored: an invalid value is silently replaced")
 	}
 	c.R.Check(nErr >= 15, "R-C02-2", "config:error-sites", "", "", fmt.Sprintf("%d error-returning call site(s)", nErr), ">= 15", "anchor-missing")
 }
@@ -1330,4 +1216,129 @@ func boundedIndex(fn *ssa.Function, x *ssa.IndexAddr) bool {
 		}
 	}
 	return true
+}
+
+// errorDiscipline checks, for every call in f that returns an error: the error
+// is tested (or handed straight to the caller), and on every path where it is
+// non-nil f returns a non-nil error (it is not swallowed). Returns the number
+// of call sites examined.
+func errorDiscipline(c *Ctx, rule string, f *ssa.Function, label, oracle, bad string) int {
+	n := label
+	nErr := 0
+	ps, _ := c.XO.Paths(f, an.PathOpts{MaxPaths: 400000, EmitCut: true, InlinePaths: c.helperInline(f)})
+	type st struct{ tested, swallowed bool }
+	sites := map[ssa.Value]*st{}
+	for _, b := range f.Blocks {
+		for _, in := range b.Instrs {
+			call, ok := in.(*ssa.Call)
+			if !ok {
+				continue
+			}
+			sig := call.Call.Signature()
+			if sig.Results().Len() == 0 || types.TypeString(sig.Results().At(sig.Results().Len()-1).Type(), nil) != "error" {
+				continue
+			}
+			if fo := an.CalleeObj(&call.Call); fo != nil && (fo.Pkg() != nil && fo.Pkg().Path() == "fmt" || fo.Pkg() != nil && fo.Pkg().Path() == "errors") {
+				continue // constructors
+			}
+			sites[call] = &st{}
+		}
+	}
+	// the tests of each site's error: If instructions comparing it with nil (identified by SSA
+	// operand, so that a helper whose body is enumerated in line is still seen as tested)
+	type errIf struct {
+		in     *ssa.If
+		nonNil int // successor index taken when the error is non-nil
+	}
+	tests := map[ssa.Value][]errIf{}
+	for _, b := range f.Blocks {
+		ifi, ok := b.Instrs[len(b.Instrs)-1].(*ssa.If)
+		if !ok {
+			continue
+		}
+		bo, ok := ifi.Cond.(*ssa.BinOp)
+		if !ok || (bo.Op != token.NEQ && bo.Op != token.EQL) {
+			continue
+		}
+		for _, pair := range [][2]ssa.Value{{bo.X, bo.Y}, {bo.Y, bo.X}} {
+			cst, isC := pair[1].(*ssa.Const)
+			if !isC || !cst.IsNil() {
+				continue
+			}
+			src := pair[0]
+			if ex, ok := src.(*ssa.Extract); ok {
+				src = ex.Tuple
+			}
+			if st := sites[src]; st != nil {
+				st.tested = true
+				nn := 0
+				if bo.Op == token.EQL {
+					nn = 1
+				}
+				tests[src] = append(tests[src], errIf{ifi, nn})
+			}
+		}
+	}
+	// an error handed straight to the caller (`return helper(...)`) is propagated, not ignored
+	for v, st := range sites {
+		call := v.(*ssa.Call)
+		if call.Referrers() == nil {
+			continue
+		}
+		for _, r := range *call.Referrers() {
+			var errVal ssa.Value
+			if ex, ok := r.(*ssa.Extract); ok && ex.Index == call.Call.Signature().Results().Len()-1 {
+				errVal = ex
+			} else if _, ok := r.(*ssa.Return); ok && call.Call.Signature().Results().Len() == 1 {
+				errVal = call
+			}
+			if errVal == nil || errVal.Referrers() == nil {
+				continue
+			}
+			for _, rr := range *errVal.Referrers() {
+				if ret, ok := rr.(*ssa.Return); ok && len(ret.Results) > 0 && ret.Results[len(ret.Results)-1] == errVal {
+					st.tested = true
+				}
+			}
+		}
+	}
+	for _, p := range ps {
+		for v, ts := range tests {
+			for _, t := range ts {
+				for i, blk := range p.Blocks {
+					if blk != t.in.Block() {
+						continue
+					}
+					// the next block of this frame on the path
+					var next *ssa.BasicBlock
+					for _, nb := range p.Blocks[i+1:] {
+						if nb.Parent() == f {
+							next = nb
+							break
+						}
+					}
+					if next == nil && p.Cut && p.CutTo.Parent() == f {
+						next = p.CutTo
+					}
+					if next != blk.Succs[t.nonNil] {
+						continue
+					}
+					if p.Cut || !(p.Ret != nil && !exprIsNil(p.Results[len(p.Results)-1]) && !exprIsZero(p.Results[len(p.Results)-1])) {
+						sites[v].swallowed = true
+					}
+				}
+			}
+		}
+	}
+	for v, s := range sites {
+		nErr++
+		call := v.(*ssa.Call)
+		name := "?"
+		if fo := an.CalleeObj(&call.Call); fo != nil {
+			name = fo.Name()
+		}
+		c.R.Check(s.tested && !s.swallowed, rule, fmt.Sprintf("%s:error-of-%s", n, name), n, c.pos(call.Pos()), fmt.Sprintf("error tested=%v, non-nil error reaches a non-nil error return=%v", s.tested, !s.swallowed),
+			oracle, bad)
+	}
+	return nErr
 }
